@@ -98,6 +98,17 @@ let run (toks : string list) : string =
                else d := Config.unpair !d (bytes_of_string name));
               emit (k ^ "=st2")
             end
+          | ["LC"] ->
+            (* the stored identity renamed (uuid file and the accessory's own entity), key pair kept; the new name is first
+               seen at the next start *)
+            if !running then emit "LC=running"
+            else (match !d.Config.d_uuid with
+                | None -> emit "LC=nouuid"
+                | Some old ->
+                  let nw = [n_of_int (!starts + 1)] in
+                  let dd = !d in
+                  d := { dd with Config.d_uuid = Some nw;
+                                 Config.d_entities = L.map (fun ((n, k), priv) -> if n = old && priv then ((nw, k), priv) else ((n, k), priv)) dd.Config.d_entities })
           | [("D" | "Z") as k; file] ->
             if !running then emit (k ^ "=running")
             else begin
